@@ -292,7 +292,7 @@ def run(ctx, rep):
     for tr, self_re in ((r"^std::io::Write$", r"^crc::CrcWriter<W, C>$"), (r"^std::io::Read$", r"^crc::CrcReader<R, C>$")):
         b = impl_body(F, tr, self_re, "write" if "Write" in tr else "read", rep, "C02.crc")
         if b is not None:
-            cl = F.closures_of(b)
+            cl = [b] + F.closures_of(b)
             upd = [1 for c in cl for _, t in c.calls() if (t["f"].get("path") or "").endswith("Checksum::update")]
             rep.check("C02.crc", "%s folds Checksum::update over the transferred bytes" % self_re, len(upd) >= 1, loc_of(b))
 
